@@ -1,0 +1,8 @@
+//go:build !verif
+// +build !verif
+
+package capacity
+
+// Verification hook (see /verif): a no-op unless built with the "verif" tag.
+
+func verifGate(sk *SpaceKeeper, name string) {}
